@@ -86,6 +86,7 @@ type txShape struct {
 	newN   int          // new page count
 	pages  map[int]bool // modified / appended pages (page 1 always)
 	commit bool
+	tempN  int // pages newN+1..tempN are appended and written by a cache spill, then freed before commit
 }
 
 func (p *pager) randomShape(maxGrow int) txShape {
@@ -94,7 +95,7 @@ func (p *pager) randomShape(maxGrow int) txShape {
 	switch {
 	case n == 0:
 		s.newN = p.r.Range(1, maxGrow)
-	case p.r.Chance(1, 5) && n > 1: // shrink (vacuum-like)
+	case p.r.Chance(1, 4) && n > 1: // shrink (vacuum-like)
 		s.newN = p.r.Range(1, n-1)
 		if p.r.Chance(1, 3) && n > 260 { // cross a 256-page checksum block
 			s.newN = p.r.Range(1, max(1, n-257))
@@ -179,6 +180,7 @@ func (p *pager) journalTx(s txShape, spillAfter int, rollback int) {
 		}
 	}
 	exclusive := false
+	spilledBeyond := 0
 	written := map[int]bool{}
 	goExclusive := func() {
 		if !exclusive {
@@ -213,6 +215,15 @@ func (p *pager) journalTx(s txShape, spillAfter int, rollback int) {
 					p.do(fmt.Sprintf("dbw %d %s", p.off(w), newToks[w]))
 					written[w] = true
 				}
+			}
+			// pages appended by the transaction and freed again before commit reach the file too
+			for w := max(n, s.newN) + 1; w <= s.tempN; w++ {
+				if w == p.lockPgno() {
+					continue
+				}
+				t, _ := p.pageTok()
+				p.do(fmt.Sprintf("dbw %d %s", p.off(w), t))
+				spilledBeyond = w
 			}
 			segStart = ((joff-1)/int64(p.sector) + 1) * int64(p.sector)
 			recs = 0
@@ -259,6 +270,9 @@ func (p *pager) journalTx(s txShape, spillAfter int, rollback int) {
 				maxW = w
 			}
 		}
+		if spilledBeyond > maxW {
+			maxW = spilledBeyond
+		}
 		if maxW > n && n > 0 {
 			p.do(fmt.Sprintf("dbt %d", int64(n)*int64(p.ps)))
 		}
@@ -274,7 +288,7 @@ func (p *pager) journalTx(s txShape, spillAfter int, rollback int) {
 		}
 	}
 	finalize()
-	if s.newN < n {
+	if s.newN < n || spilledBeyond > s.newN {
 		p.do(fmt.Sprintf("dbt %d", int64(s.newN)*int64(p.ps)))
 	}
 	unlockAll()
@@ -492,4 +506,12 @@ func (p *pager) refImageDigest() string {
 		all = append(all, b...)
 	}
 	return imageDigest(all, p.ps)
+}
+
+// dropped resets the simulator after the database was deleted.
+func (p *pager) dropped() {
+	p.img, p.tok = nil, nil
+	p.wal, p.walFile, p.walInit, p.journalFile, p.dmsHeld = false, false, false, false, false
+	p.walPages = map[uint32][]byte{}
+	p.walOff = 0
 }
